@@ -61,6 +61,18 @@ def run(ctx):
         for c in cs.values():
             if c is not None: cases.append(c)
         meta.append((e, ev, cs))
+    # with --split-by: an expression that looks at the enclosing record has the same value in a first and in a later
+    # --select, in --filter, --sort-by and --group-by
+    scases = []; smeta = []
+    SPL = ['^.k', '(size ^.arr)', '^.a', '(concat (default ^.k "n") "-")', '.']
+    for i in range(n // 4):
+        e = rnd.choice(SPL)
+        one = mkcase('Y%d' % i, lib.new_cfg(split='.arr', select=[e + '=v']), data)
+        two = mkcase('Z%d' % i, lib.new_cfg(split='.arr', select=['.=o', '(size .)=p', e + '=v']), data)
+        srt = mkcase('W%d' % i, lib.new_cfg(split='.arr', select=['.=o', e + '=v'], sort=['(? true 1 %s)' % e]), data)
+        grp = mkcase('X%d' % i, lib.new_cfg(split='.arr', select=[e + '=v'], group='(stringify %s)' % e), data)
+        scases += [one, two, srt, grp]; smeta.append((e, one, two, srt, grp))
+    cases += scases
     # regex functions under different cache sizes
     rcases = []; rmeta = []
     pats = ['a.', '^x', 'b+', '(a)(b)', '[', 'z$', '.*', 'a|x']
@@ -115,6 +127,27 @@ def run(ctx):
                 idx = RECS.index(r['r'])
                 if r.get('v', '<nothing>') != vals[idx]: V('sort', 'the value is the same after --sort-by', json.dumps(r)[:300], json.dumps(vals[idx])[:300]); break
             if len(got) != sum(1 for v in vals if v != '<nothing>'): V('sort', '--sort-by keeps exactly the records on which the expression has a value', len(got), sum(1 for v in vals if v != '<nothing>'))
+    for e, one, two, srt, grp in smeta:
+        a = impl[one['id']]
+        if a['result'] != 'ok': continue
+        vals = [json.loads(r).get('v', '<nothing>') for r in rows(a['stdout'])]
+        checked += 1
+        for c, rel in ((two, 'a later --select'), (srt, '--sort-by after --select')):
+            b = impl[c['id']]
+            got = [json.loads(r).get('v', '<nothing>') for r in rows(b['stdout'])] if b['result'] == 'ok' else None
+            if got != vals:
+                d = c['inputs'][0]['data']
+                violations.append({'property': 'C13', 'relation': 'with --split-by, the value of an expression that uses ^ is the same in %s' % rel, 'expression': e, 'args': lib.cfg_args(c['cfg']), 'stdin_hex': d.hex(),
+                                   'observed': json.dumps(got)[:300], 'expected': json.dumps(vals)[:300]})
+        g = impl[grp['id']]
+        if g['result'] == 'ok':
+            got = json.loads(rows(g['stdout'])[0]); exp = {}
+            for v in vals:
+                if v != '<nothing>': exp.setdefault(json.dumps(v, ensure_ascii=False, separators=(', ', ': ')), []).append({'v': v})
+            if {k: len(x) for k, x in got.items()} != {k: len(x) for k, x in exp.items()}:
+                d = grp['inputs'][0]['data']
+                violations.append({'property': 'C13', 'relation': 'with --split-by, --group-by sees the same value of an expression that uses ^ as --select', 'expression': e, 'args': lib.cfg_args(grp['cfg']), 'stdin_hex': d.hex(),
+                                   'observed': json.dumps({k: len(x) for k, x in got.items()})[:300], 'expected': json.dumps({k: len(x) for k, x in exp.items()})[:300]})
     for grp in rmeta:
         outs = [(rimpl[c['id']]['result'], rimpl[c['id']]['stdout']) for c in grp]
         checked += 1
